@@ -369,12 +369,11 @@ fn interpret<T: FromV>(case: &Case, rep: &mut Report) {
                     Ok(r2) => {
                         range = r2;
                         if was_empty {
-                            // "bounding box of the old (empty) rectangle and that position": the
-                            // statement fixes that the result holds exactly the addressed cell and
-                            // default cells around it; whether the box is {p} or (0,0)..p for a
-                            // previously empty range is not fixed by the statement, both accepted.
+                            // "the bounding box of the old rectangle and that position": an empty
+                            // rectangle holds no position, so the box is the addressed cell alone
+                            // (a box reaching back to (0,0) would contain cells that were in neither)
                             let b = (range.start(), range.end());
-                            if b == (Some(p), Some(p)) || b == (Some((0, 0)), Some(p)) {
+                            if b == (Some(p), Some(p)) {
                                 model.bounds = Some((b.0.unwrap(), p));
                             } else {
                                 rep.fail(format!(
